@@ -301,7 +301,8 @@ def may_be_empty(t):
     """an element of this type may consume no input (the reader then loops `length` times for free)"""
     k = t[0]
     if k == "S":
-        return t[1] == "M" or all((m[1] & 1) or may_be_empty(m[2]) for m in t[2])
+        # an appendable structure swallows NotEnoughData: at the end of the buffer it reads as empty
+        return t[1] in ("A", "M") or all((m[1] & 1) or may_be_empty(m[2]) for m in t[2])
     if k == "A":
         return t[1] == 0 or may_be_empty(t[2])
     if k == "U":
